@@ -134,6 +134,23 @@ def program(case, spell):
                 bad = next((e for e in each if not e.endswith(", nil]")), None)
                 want = bad if bad else "[[" + ", ".join(e[1:-len(", nil]")] for e in each) + "], nil]"
                 expect.append((f"o{objs[0] + 1} listchain {an}", "out:" + want))
+    # re-parenting: an EXISTING object given to bear - `r := oP.bear(oX)` has oX's own properties (the very same table) under the prototype oP.  It comes
+    # after every query above, so whatever the implementation remembers about lookups on oX or oP is already there (seed C05-m: a memo keyed by the table)
+    for x in objs:
+        for par in objs:
+            if x == par:
+                continue
+            lines.append(f"r := o{par + 1}.bear(o{x + 1})")
+            for k, an in enumerate(QUERY):
+                qn = spell[an]
+                rx = case["res"][x][k]
+                own = rx["r"] == "prop" and rx["owner"] == x + 1
+                lines.append(f"say(nil.try.{{|u| r['{qn}]}}.A)")
+                expect.append((f"o{x + 1} reparent-index", "out:" + expected(case, x if own else par, k, "index", spell)))
+                rtag = (x + 1) if case["objs"][x]["tagged"] else case["objs"][par]["efftag"]
+                if not own or rtag:
+                    lines.append(f"say(nil.try.{{|u| r.which('{qn})&.tag}}.A)")
+                    expect.append((f"o{x + 1} reparent-which", "out:" + (f"[{rtag}, nil]" if own else expected(case, par, k, "which", spell))))
     return "\n".join(lines), expect
 
 
